@@ -252,3 +252,77 @@ Example C12_never_lost_failed_refuted :
      [[([0], 1%Z, 1%Q); ([1], 1%Z, 1%Q); ([2], 1%Z, 1%Q)]; [([3], 1%Z, 1%Q)]; []; []; []; []],
      [[]; [([3], true)]; []; []; []; []]).
 Proof. exact RunExamples.ex_failed_work_lost. Qed.
+
+(* ------------------------------------------------------------------------------------------ *)
+(* Run level, multi-operator containers (Proofs/PriorityMultiFacts.v)                           *)
+(* ------------------------------------------------------------------------------------------ *)
+From Eudoxia Require Import Proofs.ClosedLoopFacts Proofs.PriorityMultiFacts.
+
+(* who holds what, in the final state of every run in multi-operator mode (the run reaches its last tick:
+   C08_priority_multi_runs_to_end). No operator is held twice: the operators of the queued jobs, the remaining
+   operators of the suspended containers awaiting their re-queue ([fresh_ops]) and the remaining operators of
+   the live containers ([sown]) form a duplicate-free list. Every holder holds ALL unfinished operators of one
+   pipeline ([holds]: its operators belong to pipeline k, and every other operator of k is COMPLETED) -- so a
+   pipeline never has two holders; queued operators are PENDING or FAILED and stand in a dependency-closed
+   order ([chain]); the operators awaiting a re-queue are PENDING *)
+Theorem C12_multi_queues : forall C l np cpu ram arrivals,
+  cf_static C = mk_static l -> dags_wf l ->
+  (forall op c, cf_script C op c <> []) -> cf_multi C = true ->
+  (0 <= cpu)%Z -> (0 <= ram)%Q -> NoDup (concat arrivals) ->
+  exists sf logs,
+    sim_run C APriority 0%Z (init_sim C np cpu ram) arrivals = (sf, logs, None) /\
+    NoDup (queued_ops (sm_sched sf) ++ fresh_ops (sm_exec sf) (sm_sched sf) ++ sown (sm_exec sf)) /\
+    (forall q j, In j (queue_of (sm_sched sf) q) ->
+       NoDup (j_ops j) /\
+       (forall o, In o (j_ops j) ->
+          st_of (e_world (sm_exec sf)) o = Pending \/ st_of (e_world (sm_exec sf)) o = Failed) /\
+       chain C (e_world (sm_exec sf)) (j_ops j) /\
+       exists k, holds C (e_world (sm_exec sf)) k (j_ops j)) /\
+    (forall p c, In p (e_pools (sm_exec sf)) -> In c (p_active p) \/ In c (p_suspending p) ->
+       exists k, holds C (e_world (sm_exec sf)) k (c_ops c)) /\
+    (forall c, In c (fresh_conts (sm_exec sf) (sm_sched sf)) ->
+       (forall o, In o (remops c) -> st_of (e_world (sm_exec sf)) o = Pending) /\
+       exists k, holds C (e_world (sm_exec sf)) k (c_ops c)).
+Proof. exact priority_multi_queues. Qed.
+Print Assumptions C12_multi_queues.
+
+(* multi-operator mode, nothing PENDING is lost: in the final state of every run, every PENDING operator of an
+   arrived pipeline is in a queued job, or belongs to a suspended container awaiting its re-queue (filed by the
+   next round: C12_resume_offered), or its pipeline has a result of the tick just executed (the next round files
+   a job with all its unfinished operators). FAILED operators are not covered: the retry of a failed container
+   can be dropped for good (C12_retry_dropped; C12_never_lost_failed_refuted is the run-level witness) *)
+Theorem C12_multi_no_loss : forall C l np cpu ram arrivals,
+  cf_static C = mk_static l -> dags_wf l ->
+  (forall op c, cf_script C op c <> []) -> cf_multi C = true ->
+  (0 <= cpu)%Z -> (0 <= ram)%Q -> NoDup (concat arrivals) ->
+  exists sf logs,
+    sim_run C APriority 0%Z (init_sim C np cpu ram) arrivals = (sf, logs, None) /\
+    forall k o, In k (concat arrivals) -> In o (pd_order (pipe_of (cf_static C) k)) ->
+      st_of (e_world (sm_exec sf)) o = Pending ->
+      In o (queued_ops (sm_sched sf)) \/ In o (fresh_ops (sm_exec sf) (sm_sched sf)) \/
+      exists r o', In r (sm_results sf) /\ In o' (r_ops r) /\ op_pipe (cf_static C) o' = k.
+Proof. exact priority_multi_no_loss. Qed.
+Print Assumptions C12_multi_no_loss.
+
+(* non-vacuity: four ticks of a multi-operator run (one pool of 2 CPUs / 40 GB): the query operator 4 is queued,
+   operator 1 is PENDING in suspended container 0, which awaits its re-queue, nothing is live; and the whole run,
+   in which container 0 is preempted, suspends for two ticks and its remaining operator runs again *)
+Example C12_multi_holders_witness :
+  (let '(sf, _, e) := sim_run (RunExamples.exC true) APriority 0%Z
+                              (init_sim (RunExamples.exC true) 1 2%Z 40%Q) [[0; 1]; []; [2]; []] in
+   (e, queued_ops (sm_sched sf), fresh_ops (sm_exec sf) (sm_sched sf), sown (sm_exec sf),
+    map (st_of (e_world (sm_exec sf))) [0; 1; 2; 3; 4], ss_requeued (sm_sched sf)))
+  = (None, [4], [1], [], [Completed; Pending; Completed; Completed; Pending], []).
+Proof. exact MultiExamples.ex_holders. Qed.
+
+Example C12_multi_run_witness :
+  MultiExamples.show2 (sim_run (RunExamples.exC true) APriority 0%Z (init_sim (RunExamples.exC true) 1 2%Z 40%Q)
+                               [[0; 1]; []; [2]; []; []; []; []; []; []; []]) =
+  ([([], [(Batch, [0; 1], 1%Z, 4%Q); (Batch, [2; 3], 1%Z, 36%Q)], []);
+    ([], [], []);
+    ([0], [], []);
+    ([], [], [(1, false)]);
+    ([], [(Query, [4], 1%Z, 4%Q); (Batch, [1], 1%Z, 36%Q)], []);
+    ([], [], [(2, false); (3, false)]);
+    ([], [], []); ([], [], []); ([], [], []); ([], [], [])], None, 1%Z, [0]).
+Proof. exact MultiExamples.ex_preempt_two_ticks. Qed.
